@@ -77,3 +77,11 @@ def run(tier):
     b = e1.build('C10', 'h_c10', ['harness/C10/h_c10.c'], ['-I' + bdir])
     e1.run_jobs(rep, b, plan(tier, vs), tier)
     e1.finish(rep, b, tier)
+
+
+def replay(r, tier):
+    vs = variants()
+    bdir = core.build_dir('C10')
+    gen_header(os.path.join(bdir, 'c10_variants.h'), vs)
+    b = e1.build('C10', 'h_c10', ['harness/C10/h_c10.c'], ['-I' + bdir])
+    return e1.replay(b, r)
